@@ -316,7 +316,7 @@ class MapfileTransformer(Transformer):
                 values = {value_tokens[0].value: value_tokens[1].value}
             else:
                 # list of values
-                values = [v.value for v in value_tokens]  # type: ignore
+                values = [self.clean_hexcolor(v) for v in value_tokens]  # type: ignore
                 d["__tokens__"] = [key_token] + list(value_tokens)
         else:
             # single value
@@ -324,7 +324,7 @@ class MapfileTransformer(Transformer):
             # store the original tokens so they can be processed
             # differently for METADATA, VALIDATION, and VALUES
             d["__tokens__"] = [key_token, value_token]
-            values = value_token.value
+            values = self.clean_hexcolor(value_token)
 
             if self.quoter.is_string(values):
                 values = self.clean_string(values)  # type: ignore
@@ -657,8 +657,23 @@ class MapfileTransformer(Transformer):
         return t
 
     def hexcolor(self, t):
-        t[0].value = self.clean_string(t[0].value).lower()
+        # the quotes are removed and the colour lower-cased in attr()
+        # within an expression a quoted hex colour is a string operand and is kept as it was written
         return t[0]
+
+    def is_hexcolor(self, token) -> bool:
+        """
+        The token is a quoted hex colour (and not an expression starting with one)
+        """
+        return getattr(token, "type", "") in (
+            "DOUBLE_QUOTED_HEXCOLOR",
+            "SINGLE_QUOTED_HEXCOLOR",
+        ) and token.value == str(token)
+
+    def clean_hexcolor(self, token):
+        if self.is_hexcolor(token):
+            return self.clean_string(token.value).lower()
+        return token.value
 
     def num_pair(self, t):
         a, b = t
